@@ -283,3 +283,57 @@ func H_C06_token_call_conserves_token_value() {
 		verifAssert(tCAfter.Cmp(value) == 0, "contract-gets-exactly-the-token-value")
 	}
 }
+
+// Value leaving the confidential pool for a contract: a confidential-input transaction (no account
+// input; the gas was bought on the hidden side, the public amount comes out of the hidden inputs) pays
+// `value` to a contract - with or without a confidential change output, i.e. kind Uin|Aout or
+// Uin|Aout|Uout. Whatever the call does, the value that entered the account side is all there
+// afterwards: with the contract when the call succeeds, with the refund address when it fails, plus
+// the fee for the gas used and the refund of the gas not used - nothing is created, nothing vanishes.
+//verif:stub (*github.com/lianxiangcloud/linkchain/vm.VmFactory).GetRealVm => stub_c06_getvm
+//verif:opt unwind=12 budget_s=900 split=8
+func H_C06_value_leaving_the_confidential_pool_for_a_contract_is_conserved() {
+	st, err := state.New(common.Hash{}, &c06DB{main: &c06Trie{m: map[string][]byte{}}})
+	if err != nil {
+		panic(err)
+	}
+	bR, bC := c06Amount(), c06Amount()
+	refund := []common.Address{common.EmptyAddress, c06S}[verifCase(2)]
+	st.SetBalance(refund, bR)
+	st.SetBalance(c06C, bC)
+	st.SetCode(c06C, []byte{0x60, 0x00})
+	value := []*big.Int{big.NewInt(1), new(big.Int).Mul(big.NewInt(100), big.NewInt(1e18))}[verifCase(2)]
+	kind := []types.UTXOKind{types.UinAout, types.UinAout | types.Uout}[verifCase(2)]
+	price := big.NewInt(types.ParGasPrice)
+	gas := verifNondetUint64()
+	verifAssume(gas < 1<<40)
+	c06VMInst = &c06VM{st: st}
+	c06VMRefund = 0
+	cerrID = []byte{0x08, 0xc3, 0x79, 0xa0}
+	tx := &processTransaction{
+		Type: types.TxUTXO, Kind: kind,
+		Outputs: []txOutput{{To: c06C, Amount: value, Type: Cout}},
+		Gas:     gas, GasPrice: price, InitialGas: gas, RefundAddr: refund,
+		State: st, Hash: common.Hash{0x79}, Vmenv: &vm.VmFactory{},
+	}
+	res, vmerr, terr := tx.Transit()
+	verifReach("confidential-call-transited")
+	if terr != nil {
+		verifAssert(st.GetBalance(c06C).Cmp(bC) == 0 && st.GetBalance(refund).Cmp(bR) == 0, "refused-confidential-call-does-not-execute")
+		return
+	}
+	verifReach("confidential-call-executed")
+	rAfter, cAfter := st.GetBalance(refund), st.GetBalance(c06C)
+	paid := new(big.Int).Mul(new(big.Int).SetUint64(gas-tx.Gas), price)
+	verifAssert(tx.Gas <= gas && res.Fee.Cmp(paid) == 0, "fee-is-the-gas-used-times-the-price")
+	entered := new(big.Int).Add(value, new(big.Int).Mul(new(big.Int).SetUint64(gas), price))
+	before := new(big.Int).Add(bR, bC)
+	after := new(big.Int).Add(new(big.Int).Add(rAfter, cAfter), paid)
+	verifAssert(after.Cmp(new(big.Int).Add(before, entered)) == 0, "value-that-left-the-pool-is-all-on-the-account-side")
+	if vmerr != nil {
+		verifReach("confidential-call-failed")
+		verifAssert(cAfter.Cmp(bC) == 0, "failed-call-leaves-the-contract-as-it-was")
+	} else {
+		verifAssert(cAfter.Cmp(new(big.Int).Add(bC, value)) == 0, "contract-gets-exactly-the-value")
+	}
+}
